@@ -1,10 +1,11 @@
 SPECIFICATION Spec
 CONSTANTS
   NB = 12
-  OpKinds = {"add", "addu", "rem", "sync"}
+  OpKinds = {"add", "addu", "addx", "rem", "sync"}
   MaxLen = 60
   MaxLevel = 6
   Inits = {"empty", "one", "split", "two", "deep", "wide"}
   Patterns = {"rand", "asc", "desc", "zig"}
+  Keeps = {TRUE, FALSE}
   Emit = "leaf"
 INVARIANTS ModelOK EmitCase
